@@ -42,12 +42,15 @@ Allowed(classes) == UNION {ModKinds[c] : c \in classes \cap DOMAIN ModKinds}
 Strip(sq, ks) == SelectSeq(sq, LAMBDA t : t \notin ks)
 (* every other token keeps its place *)
 OrderKept(tin, tout, classes) == Strip(tin, Allowed(classes)) = Strip(tout, Allowed(classes))
-RECURSIVE Depths(_, _, _)
-Depths(sq, i, d) == IF i > Len(sq) THEN d
-                    ELSE IF sq[i] \in {"{", "(", "["} THEN Depths(sq, i + 1, d + 1)
-                    ELSE IF sq[i] \in {"}", ")", "]"} THEN (IF d = 0 THEN 1000000 ELSE Depths(sq, i + 1, d - 1))
-                    ELSE Depths(sq, i + 1, d)
-BalancedSeq(sq) == Depths(sq, 1, 0) = 0
+RECURSIVE Nest(_, _, _)
+(* pairs nest: a closer closes the innermost open bracket of its own kind ('( { ) }' is not balanced) *)
+Opener(c) == CASE c = "}" -> "{" [] c = ")" -> "(" [] c = "]" -> "["
+Nest(sq, i, st) == IF i > Len(sq) THEN st = <<>>
+                   ELSE IF sq[i] \in {"{", "(", "["} THEN Nest(sq, i + 1, Append(st, sq[i]))
+                   ELSE IF sq[i] \in {"}", ")", "]"}
+                        THEN (IF st = <<>> \/ st[Len(st)] # Opener(sq[i]) THEN FALSE ELSE Nest(sq, i + 1, SubSeq(st, 1, Len(st) - 1)))
+                   ELSE Nest(sq, i + 1, st)
+BalancedSeq(sq) == Nest(sq, 1, <<>>)
 
 (* ===================================================================== Part 2 *)
 (* statement trees: "s" simple; if with then-body and optional else-body; loop with body.      *)
